@@ -252,9 +252,9 @@ theorem send_PF (hP : CP P) (c : C) (p : Pkt)
     (hst : ∀ x ∈ c.s.store, P (.send x.2 none)) (h : EvAll P c.ev) : PF P (send c p).ev := by
   unfold send
   split
-  · exact PF_err hP (.inl h) _
+  · exact .inl (refuseSend_all hP.lax c _ p h)
   · split
-    · exact PF_err hP (.inl h) _
+    · exact .inl (refuseSend_all hP.lax c _ p h)
     · exact processSend_PF hP c p hst h
 
 end
